@@ -61,3 +61,11 @@ func init() {
 	register("C13", false, func(p *core.Prog, r *core.Report, tier string) { integrity.C13(p, r) })
 	register("C14", false, func(p *core.Prog, r *core.Report, tier string) { cachekey.C14(p, r) })
 }
+
+func init() {
+	register("C12", true, func(p *core.Prog, r *core.Report, tier string) {
+		traps.RepairNoPanic(p, r)
+		conserve.RepairRules(p, r)
+		r.NotDecided = append(r.NotDecided, "that a cut feature is restored to its original location", "idempotence", "which abutting fragments Push merges (partial3 meets partial5)", "that the residues covered by each class are unchanged")
+	})
+}
